@@ -4492,7 +4492,7 @@ def _match__inside_list_quantifier(
             count += 1
 
         else:
-            if static_tags := pat.static_tags:
+            if (static_tags := pat.static_tags) and matches_ins_idx != -1 and (not tagss or tagss[-1] is not static_tags):  # only once, this `else` is reached a second time if the maximum count is matched
                 tagss.append(static_tags)
 
                 if not pat_tag:  # if no pat_tag then inserting matches directly into tagss and need to insert them before the static_tags dict
